@@ -100,6 +100,8 @@ func viewAlphabet() []*viewT {
 		{tag: "filter{k1}", class: "filter", hasFilter: true, filter: []string{"k1"}},
 		{tag: "filter{k2}", class: "filter", crit: 2, hasFilter: true, filter: []string{"k2"}},
 		{tag: "filter{k1,k2}", class: "filter", crit: 3, hasFilter: true, filter: []string{"k1", "k2"}},
+		{tag: "filter{k1=a}", class: "filter-by-value", hasFilter: true, filter: []string{"k1=a"}},
+		{tag: "filter{k1,k2=x}", class: "filter-by-value", crit: 1, hasFilter: true, filter: []string{"k1", "k2=x"}},
 		{tag: "drop", class: "drop", agg: 1},
 		{tag: "rename(y)", class: "rename", rename: "y"},
 		{tag: "rename(M1)", class: "rename", rename: "M1"}, // differs from the instrument name only in letter case: same stream identity
@@ -157,11 +159,24 @@ func (v *viewT) build(k kindT) sdk.View {
 	}
 	mask := sdk.Stream{Name: v.rename, Description: v.desc}
 	if v.hasFilter {
+		byValue := false
 		keys := make([]attribute.Key, len(v.filter))
 		for i, f := range v.filter {
 			keys[i] = attribute.Key(f)
+			byValue = byValue || strings.Contains(f, "=")
 		}
 		mask.AttributeFilter = attribute.NewAllowKeysFilter(keys...)
+		if byValue {
+			allowed := append([]string{}, v.filter...)
+			mask.AttributeFilter = func(kv attribute.KeyValue) bool {
+				for _, f := range allowed {
+					if string(kv.Key) == f || string(kv.Key)+"="+kv.Value.Emit() == f {
+						return true
+					}
+				}
+				return false
+			}
+		}
 	}
 	switch v.agg {
 	case 1:
@@ -210,6 +225,7 @@ type runCfg struct {
 	obsPath int // observable instruments: 0 callback given at creation, 1 Meter.RegisterCallback
 	views   []*viewT
 	decoy   bool // additionally register a view that matches no instrument (and would drop it)
+	rdrop   bool // the reader's aggregation selector answers Drop for every kind: only views with their own aggregation report
 	groups  []groupDef
 	class   string
 }
@@ -227,6 +243,10 @@ func (c *runCfg) resolve() {
 	switch len(c.views) {
 	case 0:
 		c.class = "no-view"
+		if c.rdrop {
+			c.class = "no-view/reader-default-drop"
+			return
+		}
 		c.groups = []groupDef{{instName, "", []*streamDef{{name: instName, sem: kinds[k].defSem}}}}
 		return
 	case 1:
@@ -235,7 +255,7 @@ func (c *runCfg) resolve() {
 		a, b := c.views[0], c.views[1]
 		an, ad := a.identity()
 		bn, bd := b.identity()
-		da, db := a.def(k), b.def(k)
+		da, db := c.def(a), c.def(b)
 		switch {
 		case da == nil && db == nil:
 			c.class = "pair:both-drop"
@@ -251,8 +271,11 @@ func (c *runCfg) resolve() {
 			c.class = "pair:same-identity/conflicting-definitions"
 		}
 	}
+	if c.rdrop {
+		c.class += "/reader-default-drop"
+	}
 	for _, v := range c.views {
-		d := v.def(k)
+		d := c.def(v)
 		if d == nil {
 			continue
 		}
@@ -278,6 +301,14 @@ func (c *runCfg) resolve() {
 	}
 }
 
+// def: the stream view v asks for under this configuration (nil: nothing is reported for it).
+func (c *runCfg) def(v *viewT) *streamDef {
+	if c.rdrop && v.agg == 0 {
+		return nil // the view inherits the reader's default aggregation, which is Drop
+	}
+	return v.def(c.kind)
+}
+
 func (c *runCfg) viewTags() []string {
 	t := []string{}
 	for _, v := range c.views {
@@ -294,6 +325,9 @@ func (c *runCfg) tag() string {
 	s := fmt.Sprintf("%s/%s/L=%s/%s", kinds[c.kind].name, c.temp(), c.limit, num)
 	if kinds[c.kind].async && c.obsPath == 1 {
 		s += "/RegisterCallback"
+	}
+	if c.rdrop {
+		s += "/reader-default-drop"
 	}
 	if len(c.views) > 0 {
 		s += "/" + strings.Join(c.viewTags(), "+")
@@ -360,7 +394,9 @@ func (h *harness) newReal(c *runCfg) (rr *realRun, err error) {
 		temp = metricdata.DeltaTemporality
 	}
 	ropts := []sdk.ManualReaderOption{sdk.WithTemporalitySelector(func(sdk.InstrumentKind) metricdata.Temporality { return temp })}
-	if c.kind == kExpoHistogram {
+	if c.rdrop {
+		ropts = append(ropts, sdk.WithAggregationSelector(func(sdk.InstrumentKind) sdk.Aggregation { return sdk.AggregationDrop{} }))
+	} else if c.kind == kExpoHistogram {
 		ropts = append(ropts, sdk.WithAggregationSelector(func(k sdk.InstrumentKind) sdk.Aggregation {
 			if k == sdk.InstrumentKindHistogram {
 				return expoAgg
@@ -1096,6 +1132,11 @@ func TestVerifC12(t *testing.T) {
 			jobs = append(jobs, "pair/"+k.name+"/"+tp)
 		}
 	}
+	for _, k := range kinds {
+		for _, tp := range []string{"delta", "cumulative"} {
+			jobs = append(jobs, "dropreader/"+k.name+"/"+tp)
+		}
+	}
 	enum.Jobs(jobs, func(job string) {
 		r := enum.Start("C12", "conserve")
 		defer r.Finish()
@@ -1170,6 +1211,22 @@ func TestVerifC12(t *testing.T) {
 						c := &runCfg{kind: kind, delta: parts[2] == "delta", limit: l, views: []*viewT{v}, decoy: true, obsPath: p}
 						h.enumerate("view/"+c.tag(), c, maxLen, maxCollects)
 					}
+				}
+			}
+		case "dropreader":
+			// a reader whose default aggregation is Drop: no view, every single view, every ordered pair
+			h := newHarness(r, universe(false))
+			maxLen, maxCollects := enum.Pick(r, 3, 4), 2
+			r.Bound("dropreader/max_sequence_length_incl_collects", maxLen)
+			r.Bound("dropreader/configurations", 1+len(views)+len(views)*len(views))
+			delta := parts[2] == "delta"
+			h.enumerate("dropreader/none", &runCfg{kind: kind, delta: delta, rdrop: true}, maxLen, maxCollects)
+			for _, a := range views {
+				c := &runCfg{kind: kind, delta: delta, rdrop: true, views: []*viewT{a}}
+				h.enumerate("dropreader/"+c.tag(), c, maxLen, maxCollects)
+				for _, b := range views {
+					c := &runCfg{kind: kind, delta: delta, rdrop: true, views: []*viewT{a, b}}
+					h.enumerate("dropreader/"+c.tag(), c, maxLen, maxCollects)
 				}
 			}
 		case "pair":
